@@ -685,6 +685,20 @@ func c18Refresh(c *Ctx) {
 			}
 		}
 		c.check(okCtx, "C18.refresh.context", refresh, "Refresh receives the context from contextCons.New(ctx)", refr, "per-refresh context from the constructor")
+		// every call of refresh performs the refresh: exactly one Refresh on every
+		// path to a return (a guard that skips it — "already running", "too soon" —
+		// drops a scheduled or the final refresh and returns nil for it)
+		if refr != nil {
+			isRefr := func(in ssa.Instruction) bool { return in == ssa.Instruction(refr) }
+			for _, ret := range core.Returns(refresh) {
+				if ret.Block() == refresh.Recover {
+					continue
+				}
+				mn, mx, ok := core.CountOnPaths(refresh, nil, ret, isRefr)
+				c.check(ok && mn == 1 && mx == 1, "C18.refresh.context", refresh, "exactly one Refresh on every path through refresh", ret,
+					sprintf("min %d max %d: a path around the call reports success for a refresh that did not happen", mn, mx))
+			}
+		}
 		okDefer := false
 		core.EachInstr(refresh, func(in ssa.Instruction) {
 			if d, ok := in.(*ssa.Defer); ok && newCall != nil {
